@@ -30,6 +30,7 @@ type evalCtx struct {
 	depth   int
 	inOld   bool
 	inPrev    bool
+	varsSt    *State // state whose source-variable bindings are used (stays the current one inside old())
 	absIdx    *absIndex
 	varsAfter bool // parameters (entry values) shadow current source variables (ensures clauses)
 }
@@ -376,11 +377,22 @@ func (cx *evalCtx) ident(name string) (TV, error) {
 			return cx.valToTV(v, cx.btypes[name])
 		}
 	}
+	vs := cx.st
+	if cx.varsSt != nil {
+		vs = cx.varsSt
+	}
+	if cx.useVars && (!cx.inOld || cx.varsAfter) {
+		if v, ok := vs.vars[name]; ok {
+			if _, isAddr := v.(*Addr); !isAddr {
+				return cx.valToTV(v, nil)
+			}
+		}
+	}
 	if cx.useVars && !cx.inOld {
-		if v, ok := cx.st.vars[name]; ok {
+		if v, ok := vs.vars[name]; ok {
 			return cx.valToTV(v, nil)
 		}
-		if v, ok := cx.st.vars["&"+name]; ok {
+		if v, ok := vs.vars["&"+name]; ok {
 			switch a := v.(type) {
 			case *Addr:
 				return cx.run.load(cx.st, a), nil
@@ -842,6 +854,9 @@ func (cx *evalCtx) call(x *ast.CallExpr) (TV, error) {
 				return TV{}, fmt.Errorf("old() not available here")
 			}
 			n := cx.sub()
+			if n.varsSt == nil {
+				n.varsSt = cx.st
+			}
 			n.st = cx.old
 			n.inOld = true
 			return n.goExpr(x.Args[0])
